@@ -50,8 +50,8 @@ Fixpoint cstmt_ind' (P : cstmt -> Prop)
     (Hwh : forall c b, P b -> P (SWhile c b))
     (Hfor : forall i c st b, P i -> P st -> P b -> P (SFor i c st b))
     (Hsw : forall e cases d, Forall (fun zs => P (snd zs)) cases -> P d -> P (SSwitch e cases d))
-    (Hret : forall e, P (SRet e)) (s : cstmt) : P s :=
-  let rec := cstmt_ind' P Hskip Hass Hseq Hif Hwh Hfor Hsw Hret in
+    (Hret : forall e, P (SRet e)) (Hop : forall x t o e, P (SAssignOp x t o e)) (s : cstmt) : P s :=
+  let rec := cstmt_ind' P Hskip Hass Hseq Hif Hwh Hfor Hsw Hret Hop in
   match s with
   | SSkip => Hskip
   | SAssign x t e => Hass x t e
@@ -66,12 +66,13 @@ Fixpoint cstmt_ind' (P : cstmt -> Prop)
                         | zs :: r => Forall_cons zs (rec (snd zs)) (go r)
                         end) cases) (rec d)
   | SRet e => Hret e
+  | SAssignOp x t o e => Hop x t o e
   end.
 
 Lemma compile_top_ok w rt : forall s d k c, compile w rt d s k = Some c -> top_ok d k -> top_ok d c.
 Proof.
   induction s as [| x t e | a b IHa IHb | c0 a b IHa IHb | c0 b IHb | i c0 st b IHi IHst IHb
-                  | e cases dflt IHc IHd | e] using cstmt_ind'; intros d k c Hc Hk; cbn [compile] in Hc.
+                  | e cases dflt IHc IHd | e | x t o e] using cstmt_ind'; intros d k c Hc Hk; cbn [compile] in Hc.
   - inversion Hc; subst; auto.
   - destruct (lower w e) as [[[te ve] ?]|]; [|discriminate].
     destruct (coerce_tree w te t ve); inversion Hc; subst. exact Hk.
@@ -95,6 +96,9 @@ Proof.
       cbn [top_ok]. split; eauto.
   - destruct (lower w e) as [[[te ve] ?]|]; [|discriminate].
     destruct (coerce_tree w te rt ve); inversion Hc; subst. exact I.
+  - destruct (shorthand_ok o && numeric t); [|discriminate].
+    destruct (lower w e) as [[[te ve] ?]|]; [|discriminate]. destruct (ir_ty w t); [|discriminate].
+    destruct (coerce_tree w te t ve); inversion Hc; subst. exact Hk.
 Qed.
 
 Lemma compile_for_desugar w rt d i c st b k :
@@ -208,6 +212,19 @@ Proof.
     rewrite H in T. inversion T; subst te2.
     destruct (coerce_tree w te rt ve) as [ce|] eqn:Hco; [|discriminate]. inversion Hc; subst.
     apply R_ret. eapply coerce_conv; eauto.
+  - (* x o= e *)
+    destruct (shorthand_ok o && numeric t); [|discriminate].
+    destruct (lower w e) as [[[te2 ve] kb]|] eqn:Hlow; [|discriminate].
+    destruct (lower_exact w env Hw e te2 ve kb v Hlow H1) as (T & V & _).
+    rewrite H0 in T. inversion T; subst te2.
+    destruct (ir_ty w t) as [vt|] eqn:Hvt; [|discriminate].
+    destruct (coerce_tree w te t ve) as [ce|] eqn:Hco; [|discriminate]. inversion Hc; subst.
+    eapply R_store.
+    + cbn [eval_l]. rewrite H3. cbn [of_opt obind].
+      rewrite (coerce_conv w env te t ve ce v v' Hw Hco H2 V). cbn [obind].
+      eapply binop_exact; eauto.
+    + rewrite set_nth_var. eassumption.
+    + apply Hout. intros r0 _. reflexivity.
 Qed.
 
 (* whole function body: no enclosing loop, nothing after it *)
